@@ -289,6 +289,8 @@ impl<F: Field> Region<'_, F> {
         let cell =
             self.region.assign_advice(&|| annotation().into(), column, offset, &mut || {
                 let v = to();
+                #[cfg(midnight_zk_verif)]
+                let v = crate::verif_hooks::on_assign::<VR, F>(column.index(), v);
                 let value_f = v.to_field();
                 value = v;
                 value_f
